@@ -245,7 +245,7 @@ func (r *relay) drain(stop chan bool, timeout time.Duration) {
 			return
 		default:
 		}
-		if !r.hasWindowBlockedFrames() {
+		if blocked, known := r.hasWindowBlockedFrames(); known && !blocked {
 			// Whatever is owed to the destination is in the output queue (or written) now; the
 			// marker goes in behind it.
 			m := &queuedFlushMarker{done: make(chan struct{})}
@@ -273,16 +273,21 @@ func (r *relay) drain(stop chan bool, timeout time.Duration) {
 	}
 }
 
-// hasWindowBlockedFrames reports whether any stream has frames queued that wait for window.
-func (r *relay) hasWindowBlockedFrames() bool {
-	r.flowMu.Lock()
+// hasWindowBlockedFrames reports whether any stream has frames queued that wait for window. It
+// never waits: flowMu is held across sends into the output channel, which block for as long as
+// the destination reads slowly, and drain must be able to give up meanwhile. known is false when
+// the lock was not free.
+func (r *relay) hasWindowBlockedFrames() (blocked, known bool) {
+	if !r.flowMu.TryLock() {
+		return false, false
+	}
 	defer r.flowMu.Unlock()
 	for _, w := range r.outputBuffers {
 		if w.queue.Len() > 0 {
-			return true
+			return true, true
 		}
 	}
-	return false
+	return false, true
 }
 
 func (r *relay) processFrame(f http2.Frame) error {
